@@ -1,4 +1,7 @@
 (** Entry points of the C18 model: histories through the free instance.
+    Separators are printable ASCII characters that cannot occur in an IRI
+    (RS = backtick, US = caret, GS = backslash), so that generated case files stay
+    plain string literals.
 
     entry "c18_run": one history per input row, one op per field
        N RS id RS shapes_ns RS examples(N|S..) RS reader-dict RS dictarg(- | D<dict> | R<idx>)
@@ -14,8 +17,8 @@ From Shexer Require Import Lib.PyStr Lib.Dict Gen.Consts Model.Table Model.Deter
      Model.ApiFree Spec.ApiSpec.
 Import ListNotations.
 
-Definition RS : str := [ascii_of_nat 30].
-Definition GS : str := [ascii_of_nat 29].
+Definition RS : str := Str "`".
+Definition GS : str := Str "\".
 
 Fixpoint cut_at (c : ascii) (s : str) : str * str :=
   match s with
